@@ -119,7 +119,7 @@ def build(m):
     if k == "var":
         return pb.VoiceAssistantRequest(start=m[1], conversation_id="c%d" % m[2], flags=m[3], wake_word_phrase=("w%d" % m[4]) if m[4] else "")
     if k == "vaa":
-        return pb.VoiceAssistantAudio(data=b"au%d" % m[1], end=m[2])
+        return pb.VoiceAssistantAudio(data=b"au%d" % m[1] + (b"." * 40 if m[1] % 2 else b""), end=m[2])
     if k == "van":
         return pb.VoiceAssistantAnnounceFinished(success=bool(m[1] % 2))
     if k == "ot":
@@ -209,13 +209,17 @@ def decode_write(ty, payload):
 
 
 def run_story(story):
-    """Run on the real APIClient; per step: list of (sub id | None, text)."""
+    """Run on the real APIClient; per step: list of (sub id | None, text).
+    Stories of even length run with debug logging on (records discarded): nothing observable may depend on it."""
+    debug = len(story) % 2 == 0
+
     async def go(loop):
         net = simnet.Net(loop)
         log = []
         steps = []
-        with net.patched():
+        with net.patched(), common.debug_logging(debug):
             cli, tr = await simnet.connected_client(loop, net, keepalive=1e7)
+            cli.set_debug(debug)
 
             class WriteLog(list):
                 def append(self, item):
@@ -305,7 +309,7 @@ def run_story(story):
                             log.append((sid, "vastop.%d" % int(abort)))
 
                         async def handle_audio(data, sid=sid):
-                            log.append((sid, "vaaudio.%d" % num(data.decode(), "au")))
+                            log.append((sid, "vaaudio.%d" % num(data.decode().rstrip("."), "au") if data.decode().count(".") in (0, 40) else "vaaudio.BAD %r" % (data,)))
 
                         async def handle_ann(fin, sid=sid):
                             log.append((sid, "vaann.%d" % int(fin.success)))
@@ -657,7 +661,7 @@ def camera_stories(rng, tier):
         keys = rng.sample([1, 2, 3, 4], rng.choice([1, 2, 3]))
         msgs = []
         for _ in range(rng.randrange(2, 12)):
-            msgs.append(("cam", rng.choice(keys), list(rng.randbytes(rng.choice([0, 1, 2]))), rng.random() < 0.4))
+            msgs.append(("cam", rng.choice(keys), list(rng.randbytes(rng.choice([0, 1, 2, 2, 33, 70]))), rng.random() < 0.4))
         story = [("sub", 1, "st")]
         i = 0
         while i < len(msgs):
